@@ -63,6 +63,49 @@ def _own_write_only(cls, recv) -> bool:
     return True
 
 
+def _fresh_list(e) -> bool:
+    if isinstance(e, (ast.List, ast.ListComp)):
+        return True
+    if isinstance(e, ast.Call) and isinstance(e.func, ast.Name) and e.func.id == "list":
+        return True
+    if isinstance(e, ast.BinOp) and isinstance(e.op, (ast.Add, ast.Mult)):
+        return _fresh_list(e.left) or _fresh_list(e.right)
+    return False
+
+
+def check_fresh_call_args(model, col, rule, vm=None):
+    """The argument list a callee starts with is its own: on every path of the CALL arm the list handed to `_Invoke` is built
+    on that path (a list display / comprehension / list(..)).  `_Invoke` hands that object on as the callee's `args`, which
+    STORE_ARG writes into; a list kept from an earlier execution of the call carries the callee's writes into the next one."""
+    from ..paths import paths
+
+    vm = vm or VMModel(model)
+    arm = vm.arm("CALL")
+    n = 0
+    stale = None
+    for evs, status in paths(arm.body):
+        if status == "raise":
+            continue
+        bound = {}
+        for e in evs:
+            if e.kind == "stmt" and isinstance(e.node, ast.Assign) and len(e.node.targets) == 1 and isinstance(e.node.targets[0], ast.Name):
+                bound[e.node.targets[0].id] = e.node.value
+            nodes = [e.node] if e.kind in ("stmt", "return", "cond") else []
+            for nd in nodes:
+                for c in ast.walk(nd):
+                    if isinstance(c, ast.Call) and last_attr(c) in ("_Invoke", "Invoke") and isinstance(c.func, ast.Attribute) and len(c.args) >= 2:
+                        n += 1
+                        a = c.args[1]
+                        v = bound.get(a.id) if isinstance(a, ast.Name) else a
+                        if v is None or not _fresh_list(v):
+                            stale = stale or (c, a, v)
+    col.floor(rule, "paths of the CALL arm that invoke the callee", n, 1)
+    col.check(stale is None, rule, f"{VM}::__Execute CALL hands the callee a fresh argument list", "the list passed to _Invoke is built on every path that calls it",
+              (f"on a path `{unparse(stale[1])}` is `{' '.join(unparse(stale[2]).split())[:60] if stale[2] is not None else 'bound outside the arm'}`" if stale else "")
+              + ": the callee's parameters live in that list (store.arg writes into it), so a list kept across executions starts the next invocation with the values the previous one left",
+              VM, stale[0] if stale else arm.case)
+
+
 def run(model, col, tier):
     vm = VMModel(model)
     ec = vm.ec
@@ -283,6 +326,7 @@ def run(model, col, tier):
             texts = [" ".join(unparse(b).split()) for b in body]
             consts_ok = any(f"{tv}.Reference" in t_ for t_ in texts) and any(f"{tv}.Value" in t_ for t_ in texts)
     col.check(consts_ok, "R15.5", f"{VM}::__Execute constants", "constants are copied into the fresh value map by value reference", None, VM, vm.execute)
+    check_fresh_call_args(model, col, "R15.5", vm)
     # ---------------- R15.6 ------------------------------------------------------
     # with optimisation on, a load of a global is only replaced by the value of the store *directly* before it in the same block
     # (= R02.7): an intervening call can assign the global, so forwarding across it reads a stale value
@@ -291,7 +335,9 @@ def run(model, col, tier):
     sub = Collector("C02")
     c02.run(model, sub, "quick")
     for ob in sub.obligations:
-        if ob.rule == "R02.7":
+        if ob.rule in ("R02.7", "R02.2"):
+            # R02.2: the pass removes only the forwarded load, never the store - a store to a global is an assignment later
+            # invocations (and GetGlobal) observe
             ob.rule = "R15.6"
             col.obligations.append(ob)
     # ---------------- R15.7 the program's globals are those of all its modules; a function body is its own statements ----
